@@ -272,7 +272,7 @@ pub fn run(cfg: Config) -> i32 {
         LAST_PANIC.with(|p| *p.borrow_mut() = msg.chars().take(400).collect());
     }));
     let thorough = cfg.tier == Tier::Thorough;
-    let reps = cfg.tier.pick(4, 8);
+    let reps = cfg.tier.pick(6, 8);
     let ms = build_models(cfg.seed, reps, cfg.tier.pick(10, 40));
     let cases = build_cases(cfg.seed, &ms, thorough);
     par_cases(&mut m, &cases, |m, idx, c| {
